@@ -53,7 +53,9 @@ Init == /\ pc = [p \in Procs |-> "start"]
 Goto(p, l) == pc' = [pc EXCEPT ![p] = l]
 Finish(p, r) == /\ pc' = [pc EXCEPT ![p] = "done"] /\ res' = [res EXCEPT ![p] = r]
 Op(p, name, outcome) == lastOp' = [op |-> name, p |-> p, outcome |-> outcome]
-Valid == yaml = "valid"
+\* "depsbad": module.yaml is as well-formed as ever but the dependency pins it lists were edited (a tampering): the store
+\* takes it for a complete entry, a reader must not - the digest of the key covers the pins
+Valid == yaml \in {"valid", "depsbad"}
 CanFault == faults < MaxFaults
 
 \* ====================================================================== dir layout, put
@@ -163,7 +165,7 @@ TarDelete(p) == /\ pc[p] = "tdelete"
 \* ====================================================================== access (lazy digest check)
 \* dir layout: the files are read lazily, at access time; tar layout: the tar was read (into memory)
 \* by TarGet, so what is served is what was on disk then, and that was good
-EntryGood == IF Layout = "dir" THEN (\A f \in Files : file[f] = "good") /\ ~extra ELSE TRUE
+EntryGood == IF Layout = "dir" THEN (\A f \in Files : file[f] = "good") /\ ~extra /\ yaml # "depsbad" ELSE TRUE
 Access(p) == /\ pc[p] = "access"
              /\ Op(p, "access", IF EntryGood THEN "content" ELSE "mismatch")
              /\ Finish(p, IF EntryGood THEN "content" ELSE "mismatch")
@@ -177,7 +179,7 @@ Crash(p) == /\ pc[p] \notin {"start", "done"} /\ crashes < MaxCrashes
             /\ Op(p, "crash", pc[p])
             /\ Finish(p, "crashed")
             /\ UNCHANGED <<idx, perr, file, extra, yaml, tmp, faults, tampers>>
-TamperKinds == IF Layout = "dir" THEN {"flip", "truncate", "delete", "add", "yaml-corrupt", "yaml-delete"} ELSE {"flip"}
+TamperKinds == IF Layout = "dir" THEN {"flip", "truncate", "delete", "add", "yaml-corrupt", "yaml-delete", "yaml-deps"} ELSE {"flip"}
 Tamper(k, f) ==
   /\ tampers < MaxTampers
   /\ IF Layout = "dir" THEN Valid ELSE yaml = "good"
@@ -188,6 +190,7 @@ Tamper(k, f) ==
        [] k = "add"          -> extra' = TRUE /\ UNCHANGED <<file, yaml>>
        [] k = "yaml-corrupt" -> yaml' = "invalid" /\ UNCHANGED <<file, extra>>
        [] k = "yaml-delete"  -> yaml' = "absent" /\ UNCHANGED <<file, extra>>
+       [] k = "yaml-deps"    -> yaml' = "depsbad" /\ UNCHANGED <<file, extra>>
        [] k = "flip" /\ Layout = "tar" -> yaml' = "bad" /\ UNCHANGED <<file, extra>>
   /\ UNCHANGED <<pc, idx, perr, tmp, readers, writer, res, faults, crashes>>
 
@@ -201,7 +204,7 @@ Spec == Init /\ [][Next]_vars
 
 \* ====================================================================== properties
 TypeOK == /\ \A f \in Files : file[f] \in {"absent", "partial", "good", "bad"}
-          /\ yaml \in {"absent", "invalid", "valid", "good", "bad"}
+          /\ yaml \in {"absent", "invalid", "valid", "depsbad", "good", "bad"}
 \* a failed or interrupted store never leaves the entry marked complete
 NoFalseComplete == (Layout = "dir" /\ Valid /\ tampers = 0) => \A f \in Files : file[f] = "good"
 \* a store that reports success leaves (untampered) the entry complete and good
